@@ -1946,7 +1946,7 @@ async def run_preready(ctx: Ctx, rng, use_model: bool, seed_tag: str):
     created message may be accepted on it — in particular no cell "in clear" may be delivered as circuit data"""
     from ipv8.messaging.anonymization.payload import DataPayload, PingPayload
     from ipv8.messaging.anonymization.tunnel import PEER_FLAG_EXIT_BT, PEER_FLAG_RELAY, PEER_FLAG_SPEED_TEST
-    sim = Sim(rng, hidden=False, open_policy=True)
+    sim = Sim(rng, hidden=False, open_policy=True, delay=5)      # production remove_tunnel_delay: a removed circuit lingers
     tag = f"preready/{seed_tag}"
     ck = Checker(ctx, sim, use_model, tag)
     try:
@@ -1973,53 +1973,63 @@ async def run_preready(ctx: Ctx, rng, use_model: bool, seed_tag: str):
             "ping": bytes([6]) + ser.pack_serializable(PingPayload(c.circuit_id, 7))[4:],
             "garbage": b"\x55" + bytes(rng.getrandbits(8) for _ in range(40)),
         }
-        for kind, msg in msgs.items():
-            for src in (first_hop, 2):
-                for ptf in (False, True):
-                    pkt = prefix + b"\x00" + struct.pack("!I??", c.circuit_id, ptf, False) + msg
-                    replay = {"scenario": tag, "op": "inject", "kind": f"no-keys-{kind}", "dst": 0, "src": src, "cid": c.circuit_id,
-                              "flagged_plaintext": ptf, "datagram": pkt.hex(), "hops": 1}
-                    n_raw = len(sim.raw_log)
-                    f2 = len(sim.passages)
-                    q = sim.inject(0, src, pkt)
-                    await sim.settle()
-                    if sim.raw_log[n_raw:] or any(p.delivered for p in sim.passages[f2:]):
-                        ctx.oracle_fail("incoming_crypto:no-keys-cell-delivered",
-                                        f"{tag}: a cell in clear ({kind}, plaintext flag {ptf}) sent to a circuit that has no hop keys yet was "
-                                        f"delivered{' to on_raw_data as circuit data' if sim.raw_log[n_raw:] else ' to the cell handlers'}", replay)
-                    ctx.count(f"inject:no-keys-{kind}")
-                    if ck.drv is not None:
-                        m = ck.ask(f"inject 0 {src} {c.circuit_id} {int(ptf)} 0 [] {msg.hex()}")
-                        mw, mfin, reason = canon_model(m)
-                        real = real_trace(sim, q, msg)
-                        fin = real_final(q, 0)
-                        ctx.count(f"model_final:{reason}")
-                        if not traces_agree(mw, mfin, real, fin):
-                            ctx.disagree(f"{tag}: cell in clear for a circuit without keys: model {mw} {mfin} != implementation {real} {fin}",
-                                         {**replay, "model": m, "impl": real + [fin]})
-                    ctx.case(("preready", kind, src == first_hop, ptf), True)
-        sim.hold.discard(0)
-        await create_under_own_id_round(ctx, rng, ck, sim, first_hop, 0, c, "preready")
-        sim.hold.add(0)
-        # the owner itself sends into the circuit that has no hop keys yet (data, ping): nothing may leave unencrypted —
-        # there is no key, so nothing may leave at all (guard of outgoing_crypto; model: noKeyToSend)
-        for what in ("data", "ping"):
-            payload = rand_payload(rng, 40)
-            first = len(sim.passages)
-            sim.op_first_pid = first
-            if what == "data":
-                o.send_data(c.hop.address, c.circuit_id, ("8.8.4.4", 4242), ZERO, payload)
-            else:
-                o.send_cell(c.hop.address, PingPayload(c.circuit_id, 9))
-            await sim.settle()
-            replay = {"scenario": tag, "op": "send-without-keys", "what": what, "payload": payload.hex(), "hops": 1}
-            ck.check_passages(first, f"owner sends {what} into a circuit without hop keys", replay)
-            for p in sim.passages[first:]:
-                if p.kind == "cell" and any(not w[3] for w in p.wires):
-                    ctx.oracle_fail("link:plaintext-visible", f"{tag}: the owner's {what} cell for a circuit without hop keys was put on the wire "
-                                    "unencrypted", replay)
-            ctx.count(f"send_without_keys:{what}")
-            ctx.case(("preready", "send", what), True)
+        # the same while the circuit is still being built (EXTENDING) and after it has been given up but is still registered for
+        # remove_tunnel_delay seconds (CLOSING): a circuit without hops has no keys in either state
+        for state in ("EXTENDING", "CLOSING"):
+            if state == "CLOSING":
+                o.remove_circuit(c.circuit_id, "given up")
+                await sim.settle()
+                if c.circuit_id not in o.circuits:
+                    break
+                ck.compare_tables("hop-less circuit closing")
+            ctx.count(f"preready:circuit_state:{c.state}")
+            for kind, msg in msgs.items():
+                for src in (first_hop, 2):
+                    for ptf in (False, True):
+                        pkt = prefix + b"\x00" + struct.pack("!I??", c.circuit_id, ptf, False) + msg
+                        replay = {"scenario": tag, "op": "inject", "kind": f"no-keys-{kind}", "dst": 0, "src": src, "cid": c.circuit_id,
+                                  "flagged_plaintext": ptf, "circuit_state": state, "datagram": pkt.hex(), "hops": 1}
+                        n_raw = len(sim.raw_log)
+                        f2 = len(sim.passages)
+                        q = sim.inject(0, src, pkt)
+                        await sim.settle()
+                        if sim.raw_log[n_raw:] or any(p.delivered for p in sim.passages[f2:]):
+                            ctx.oracle_fail("incoming_crypto:no-keys-cell-delivered",
+                                            f"{tag}: a cell in clear ({kind}, plaintext flag {ptf}) sent to a circuit without any hop keys (state {state}) was "
+                                            f"delivered{' to on_raw_data as circuit data' if sim.raw_log[n_raw:] else ' to the cell handlers'}", replay)
+                        ctx.count(f"inject:no-keys-{kind}:{state}")
+                        if ck.drv is not None:
+                            m = ck.ask(f"inject 0 {src} {c.circuit_id} {int(ptf)} 0 [] {msg.hex()}")
+                            mw, mfin, reason = canon_model(m)
+                            real = real_trace(sim, q, msg)
+                            fin = real_final(q, 0)
+                            ctx.count(f"model_final:{reason}")
+                            if not traces_agree(mw, mfin, real, fin):
+                                ctx.disagree(f"{tag}: cell in clear for a circuit without keys: model {mw} {mfin} != implementation {real} {fin}",
+                                             {**replay, "model": m, "impl": real + [fin]})
+                        ctx.case(("preready", state, kind, src == first_hop, ptf), True)
+            sim.hold.discard(0)
+            await create_under_own_id_round(ctx, rng, ck, sim, first_hop, 0, c, "preready")
+            sim.hold.add(0)
+            # the owner itself sends into the circuit that has no hop keys yet (data, ping): nothing may leave unencrypted —
+            # there is no key, so nothing may leave at all (guard of outgoing_crypto; model: noKeyToSend)
+            for what in ("data", "ping"):
+                payload = rand_payload(rng, 40)
+                first = len(sim.passages)
+                sim.op_first_pid = first
+                if what == "data":
+                    o.send_data(c.hop.address, c.circuit_id, ("8.8.4.4", 4242), ZERO, payload)
+                else:
+                    o.send_cell(c.hop.address, PingPayload(c.circuit_id, 9))
+                await sim.settle()
+                replay = {"scenario": tag, "op": "send-without-keys", "what": what, "payload": payload.hex(), "hops": 1}
+                ck.check_passages(first, f"owner sends {what} into a circuit without hop keys", replay)
+                for p in sim.passages[first:]:
+                    if p.kind == "cell" and any(not w[3] for w in p.wires):
+                        ctx.oracle_fail("link:plaintext-visible", f"{tag}: the owner's {what} cell for a circuit without hop keys was put on the wire "
+                                        "unencrypted", replay)
+                ctx.count(f"send_without_keys:{what}")
+                ctx.case(("preready", state, "send", what), True)
     finally:
         if ck.drv is not None:
             ck.drv.close()
